@@ -1533,3 +1533,59 @@ func reachOnSomePath(fn *ssa.Function, target ssa.Instruction, assume func(v ssa
 	walk(fn.Blocks[0], nil, &pathState{decided: map[string]Tri{}, phi: map[*ssa.Phi]ssa.Value{}, visits: map[*ssa.BasicBlock]int{}})
 	return found
 }
+
+// pathToExitAvoidingUnder: like pathToExitAvoiding, but a branch whose condition assume decides
+// (through negation) follows only the decided edge.
+func pathToExitAvoidingUnder(from ssa.Instruction, pass func(ssa.Instruction) bool, assume func(v ssa.Value) Tri) ssa.Instruction {
+	var eval func(v ssa.Value) Tri
+	eval = func(v ssa.Value) Tri {
+		if u, ok := v.(*ssa.UnOp); ok && u.Op == token.NOT {
+			return eval(u.X).not()
+		}
+		return assume(v)
+	}
+	type item struct {
+		b   *ssa.BasicBlock
+		idx int
+	}
+	seen := map[*ssa.BasicBlock]bool{}
+	st := []item{{from.Block(), instrIndex(from) + 1}}
+	for len(st) > 0 {
+		it := st[len(st)-1]
+		st = st[:len(st)-1]
+		blocked := false
+		for i := it.idx; i < len(it.b.Instrs); i++ {
+			in := it.b.Instrs[i]
+			if pass(in) {
+				blocked = true
+				break
+			}
+			if _, ok := in.(*ssa.Return); ok {
+				return in
+			}
+			if _, ok := in.(*ssa.Panic); ok {
+				blocked = true
+				break
+			}
+		}
+		if blocked {
+			continue
+		}
+		succs := it.b.Succs
+		if iff, ok := it.b.Instrs[len(it.b.Instrs)-1].(*ssa.If); ok {
+			switch eval(iff.Cond) {
+			case T:
+				succs = succs[:1]
+			case F:
+				succs = succs[1:2]
+			}
+		}
+		for _, s := range succs {
+			if !seen[s] {
+				seen[s] = true
+				st = append(st, item{s, 0})
+			}
+		}
+	}
+	return nil
+}
